@@ -17,6 +17,10 @@ var c12Oracles = oracleSet{identity: true} //nolint:gochecknoglobals
 
 // bigResponse builds a decodable response of roughly `size` bytes (<= 1024) with a unique tag.
 func bigResponse(id [12]byte, tag string, size int, r *gen.Rand) []byte {
+	if size <= 20 {
+		// a header-only response: nothing but type, length 0, cookie and id
+		return append([]byte(nil), stun.MustBuild(stun.BindingSuccess, stun.NewTransactionIDSetter(id)).Raw...)
+	}
 	setters := []stun.Setter{stun.BindingSuccess, stun.NewTransactionIDSetter(id), stun.NewSoftware(tag)}
 	m := stun.MustBuild(setters...)
 	for len(m.Raw)+8 <= size {
@@ -52,6 +56,9 @@ func c12Many(c *core.Ctx, r *gen.Rand, n int, fallback bool) {
 	base := r.TID()
 	for len(ids) < n {
 		id := r.TID()
+		if len(ids) == 0 && r.Chance(1, 3) {
+			id = [12]byte{} // a message built without a transaction-id setter carries the all-zero id
+		}
 		if r.Chance(1, 3) {
 			id = base
 			bit := r.Intn(96)
@@ -96,7 +103,7 @@ func c12Many(c *core.Ctx, r *gen.Rand, n int, fallback bool) {
 	}
 	var plan []c12Datagram
 	for i, id := range ids {
-		size := r.PickInt([]int{32, 100, 512, 1000, 1024, 32 + r.Intn(990)})
+		size := r.PickInt([]int{20, 32, 100, 512, 1000, 1024, 32 + r.Intn(990)})
 		kind := "response"
 		if late[id] {
 			kind = "late"
@@ -110,7 +117,7 @@ func c12Many(c *core.Ctx, r *gen.Rand, n int, fallback bool) {
 			plan = append(plan, c12Datagram{u, bigResponse(u, fmt.Sprintf("unknown-%x", r.U64()), 64, r), "unknown"})
 		}
 		if r.Chance(1, 10) {
-			g := r.Bytes(r.Intn(200))
+			g := r.Bytes(r.PickInt([]int{0, 1, 19, 20, r.Intn(200)}))
 			if r.Bool() && len(g) >= 20 { // looks like STUN but has a bad length
 				g[4], g[5], g[6], g[7] = 0x21, 0x12, 0xA4, 0x42
 				g[2], g[3] = 0xFF, 0xFF
